@@ -663,7 +663,7 @@ def judge(ctx, r):
 
 def run(ctx, limit=None):
     install()
-    lim_big = limit or ctx.pick(44, 3000)
+    lim_big = limit or ctx.pick(44, 2000)
     lim3 = limit or ctx.pick(10, 300)
     for i in (0, 1, 2, 99):
         actor_source(i)
